@@ -185,6 +185,11 @@ public:
     }
   }
 
+  /**
+   * @return true if the value of a class is its median, false if it is its mean.
+   */
+  bool isMedian() const { return median_; }
+
   virtual void discretize();
   /** @} */
 
